@@ -17,7 +17,8 @@ class P(Prop):
     KERNELS = ["Poly%d::derivative" % k for k in range(9)] + ["Segment<Poly%d>::derivative" % k for k in range(9)]
     RULE = ("PolyK::derivative / Segment<PolyK>::derivative kernels (K=0..8) checked lane by lane in Coq for all inputs; "
             "kernels and Piecewise::derivative (1..12 pieces, duplicate ends, equal pieces) run bit-exactly against the crate "
-            "with coefficients over the whole finite range incl. values near f64::MAX/k. non-trivial = degree >= 2; distinct by input")
+            "with coefficients over the whole finite range incl. values near f64::MAX/k. non-trivial = degree >= 2; distinct by input"
+            " Also: every lane just below its own overflow threshold, breakpoints closer than 2.2e-16, tables of 2^20-1..2^20+5 (thorough ..2^21+1) linear pieces built and checked inside the harness.")
     TRUSTED = ["translator rs2coq", "Piecewise::derivative = map (Run.run_pw_map) tied by correspondence"]
     ASSUMPTIONS = ["IEEE-754 binary64 multiplication"]
 
@@ -60,6 +61,26 @@ class P(Prop):
                     sg[j][0] = ends_[j]
                 cls = "piecewise/unordered_ends"
             out.append(dict(op="pw_derivative", ty=ty, segs=sg, meta={"class": cls}))
+        for nbig in ((1 << 20) - 1, 1 << 20, (1 << 20) + 5) if tier == "quick" else ((1 << 20) - 1, 1 << 20, (1 << 20) + 5, 3 << 19, (1 << 21) + 1):
+            out.append(dict(op="pw_derivative_big", n=nbig, meta={"class": "piecewise/big"}))
+        # strictly increasing breakpoints that differ by less than 2.2e-16 (neighbouring doubles below 1, tables in units of 1e-17)
+        for _ in range(8 if tier == "quick" else 80):
+            ty = rng.choice(["Poly1", "Poly2", "Poly3"])
+            n = rng.randint(2, 8)
+            if rng.random() < 0.5:
+                b0 = C.bits(rng.choice([0.75, 0.5, 0.3, -0.9, 0.999]))
+                es_b = [b0]
+                for _i in range(n - 1):
+                    es_b.append(C.next_up(es_b[-1]) if C.fl(es_b[-1]) >= 0 else C.next_down(es_b[-1]))
+                    if rng.random() < 0.3:
+                        es_b[-1] = C.next_up(es_b[-1]) if C.fl(es_b[-1]) >= 0 else C.next_down(es_b[-1])
+                es_b = sorted(es_b, key=lambda b: C.fl(b))
+            else:
+                unit = rng.choice([1e-17, 3e-19, 2.0 ** -60])
+                es_b = [C.bits(unit * (i + 1) * rng.choice([1.0, 1.0, 1.5])) for i in range(n)]
+                es_b = sorted(set(es_b), key=lambda b: C.fl(b))
+            sg = [[e] + G.piece(rng, ty, "int") for e in es_b]
+            out.append(dict(op="pw_derivative", ty=ty, segs=sg, meta={"class": "piecewise/close_ends"}))
         for ty in ("Poly0", "Poly3", "Poly8"):
             out.append(dict(op="pw_derivative", ty=ty, segs=[], meta={"class": "piecewise/empty"}))
         for n in (63, 64, 65, 66, 100, 128, 129, 200):
@@ -73,6 +94,8 @@ class P(Prop):
     def coq_term(self, case, h):
         if case["op"] == "k":
             return K.kernel_term(case, h)
+        if case["op"] == "pw_derivative_big":
+            return None
         return "run_pw_map [] [] %s %s []" % (C.kname("Segment<%s>::derivative" % case["ty"]), C.zlistlist(case["segs"]))
 
     def check_piece(self, inp, got, what):
@@ -87,6 +110,12 @@ class P(Prop):
     def oracle(self, case, h):
         if h["r"] == "PANIC":
             return "derivative panicked: %s" % h.get("msg")
+        if case["op"] == "pw_derivative_big":
+            if h["r"][0] != case["n"]:
+                return "Piecewise::derivative of %d linear pieces has %d pieces" % (case["n"], h["r"][0])
+            if h["r"][1] != 0xFFFFFFFFFFFFFFFF:
+                return "Piecewise::derivative of %d linear pieces (end i, i + 2i x): piece %d is not (end %d, 2*%d)" % (case["n"], h["r"][1], h["r"][1], h["r"][1])
+            return None
         if case["op"] == "k":
             ty, _ = K.split_kernel(case["name"])
             if ty.startswith("Segment<"):
@@ -110,6 +139,8 @@ class P(Prop):
         return None
 
     def nontrivial_key(self, case, h):
+        if case["op"] == "pw_derivative_big":
+            return None
         if case["op"] == "k" and len(case["args"]) < 3:
             return None
         return super().nontrivial_key(case, h)
